@@ -131,7 +131,7 @@ partial def loop (h : IO.FS.Stream) (name : String) (args : Args) (bufs : Std.Ha
     (order : Array String) : IO Unit := do
   let line ← h.getLine
   if line.isEmpty then return ()
-  let toks := (line.trim.splitOn " ").filter (· ≠ "")
+  let toks := (line.trimAscii.toString.splitOn " ").filter (· ≠ "")
   match toks with
   | "prog" :: n :: rest =>
       let m := rest.foldl (fun m t => match t.splitOn "=" with
